@@ -21,9 +21,14 @@ func main() {
 	replayDir := flag.String("replays", "", "directory for replay files")
 	replay := flag.String("replay", "", "replay file to re-run")
 	replica := flag.Bool("replica", false, "internal: act as second replica")
+	persistChild := flag.String("persist-child", "", "internal: save a state twice into this directory (run under strace)")
 	flag.Parse()
 	zerolog.SetGlobalLevel(zerolog.Disabled)
 	seed, _ := strconv.ParseUint(hx.EnvOr("VERIF_SEED", "1"), 10, 64)
+	if *persistChild != "" {
+		apprig.PersistChildMain(*persistChild)
+		return
+	}
 	if *replica {
 		apprig.ReplicaMain()
 		return
